@@ -18,6 +18,7 @@ EVENTS = {  # values of octoprint.events.Events used by the plugin (checked agai
     "PRINT_PAUSED": "PrintPaused", "PRINT_RESUMED": "PrintResumed",
 }
 
+PARAMS_PATTERN = "^[A-Za-z][0-9]+(?:\\.[0-9]+)?\\s*(.*)$"
 PI = z3.Real("pi")
 PI_BOUNDS = z3.And(PI > z3.Q(314159, 100000), PI < z3.Q(31416, 10000))
 
@@ -364,6 +365,17 @@ class Externals(object):
         raise Unsupported("dynamic getattr(%r, %r)" % (obj, name), node)
 
     def regex_call(self, interp, rx, name, args, kwargs, node):
+        if name == "sub" and rx.pattern == PARAMS_PATTERN and len(args) == 2 and args[0] == "\\1":
+            interp.ctx.assumed.add("A2:GCODE_PARAMS_REGEX.sub('\\1', cmd) is the parameter text of cmd "
+                                   "(uninterpreted function; the regex is checked bounded in C05)")
+            src = args[1]
+            if isinstance(src, str):
+                import re as _re2
+                return _re2.compile(rx.pattern).sub("\\1", src)
+            z = sstr_to_z3(src)
+            if z is None:
+                raise Unsupported("regex sub on formatted string", node)
+            return GCODE_PARAMS(z)
         h = self.regex_handlers.get((rx.pattern, name)) or self.regex_handlers.get(("*", name))
         if h is not None:
             return h(interp, rx, args, kwargs, node)
